@@ -120,6 +120,11 @@ def guarded(f):
         return {"err": tag(e)}
 
 
+def guarded_schema(f):
+    r = guarded(f)
+    return {"ok": j_schema(r["ok"])} if "ok" in r else r
+
+
 def mk_fields(fl):
     return [tsdb.Field(uncps(f["name"]), f["dt"], f.get("flags") or None, f.get("comment")) for f in fl]
 
@@ -175,7 +180,28 @@ def digest(d):
     return h.hexdigest()
 
 
-IMPL_ONLY = ("sel", "selcast", "selauto", "open", "listing", "digest", "flags")
+IMPL_ONLY = ("sel", "selcast", "selauto", "open", "listing", "digest")
+
+
+def j_schema(sch):
+    """canonical form of a schema as tsdb returns it: names, datatypes, flags, comments"""
+    return [{"name": cps(n), "fields": [[cps(f.name), cps(f.datatype), [cps(x) for x in f.flags],
+                                         None if f.comment is None else cps(f.comment)] for f in sch[n]]}
+            for n in sch]
+
+
+def want_schema_of(Tl):
+    """what reading back must give for a schema of the case language"""
+    return [{"name": t["name"], "fields": [[f["name"], cps(f["dt"]), [cps(x) for x in (f.get("flags") or [])],
+                                            cps(f["comment"]) if f.get("comment") else None]
+                                           for f in t["fields"]]} for t in Tl]
+
+
+def model_schema(s):
+    return [{"name": t["name"], "fields": [{"name": f["name"], "dt": f["dt"], "dtc": cps(f["dt"]),
+                                            "flags": [cps(x) for x in (f.get("flags") or [])],
+                                            "comment": cps(f["comment"]) if f.get("comment") is not None else None}
+                                           for f in t["fields"]]} for t in s]
 
 
 def strip(o):
@@ -418,11 +444,173 @@ def gen_db(rng):
             "watch": [cps(n) for n in watch], "sel": sel}
 
 
+
+# ---------------------------------------------------------------- schema text (relations file)
+
+IDENT1 = "abcxyzIQ_09"                 # first character of a relation name (a word character)
+IDENTC = "abcxyz_-09"
+DTYPES = [":integer", ":string", ":date", ":float", ":integer", ":string"]
+SFLAGS = [":key", ":partial", ":foreign", ":unique", ":primary", "x-1", ":a:b"]
+COMMENT_OK = ["the id", "x # y", "a  b", "42", "#", "# #", "it's", "key: item", "a\tb", "(c)", "ä", "x" * 30]
+COMMENT_ODD = ["", " lead", "trail ", "ends with colon:", ":", " ", "\ttab"]   # outside the round-trip region
+
+
+def gen_ident(rng, first=IDENT1, minlen=1):
+    n = rng.choice([1, 1, 2, 3, 5, 8, 14, 30])
+    n = max(n, minlen)
+    return rng.choice(first) + "".join(rng.choice(IDENTC) for _ in range(n - 1))
+
+
+def gen_sfield(rng, used, odd=False):
+    while True:
+        name = gen_ident(rng, first=IDENT1 + "-")
+        if name not in used:
+            used.add(name)
+            break
+    f = {"name": cps(name), "dt": rng.choice(DTYPES)}
+    if rng.random() < 0.5:
+        f["flags"] = [rng.choice(SFLAGS) for _ in range(rng.choice([1, 1, 2, 3, 6]))]
+    r = rng.random()
+    if r < 0.4:
+        f["comment"] = rng.choice(COMMENT_OK)
+    elif odd and r < 0.7:
+        f["comment"] = rng.choice(COMMENT_ODD)
+    return f
+
+
+def gen_schema_rt(rng, region=True):
+    nt = rng.choice([0, 1, 1, 2, 2, 3, 4]) if not region else rng.choice([1, 1, 2, 2, 3, 4])
+    names = set()
+    tables = []
+    for _ in range(nt):
+        while True:
+            n = gen_ident(rng)
+            if not region and rng.random() < 0.3:
+                n = rng.choice(["-x", "my table", "a:", "a#b", ":", "é1", "t:u"])
+            if n not in names:
+                names.add(n)
+                break
+        used = set()
+        nf = rng.choice([1, 1, 2, 3, 5]) if region else rng.choice([0, 1, 2, 3])
+        tables.append({"name": cps(n), "fields": [gen_sfield(rng, used, odd=not region) for _ in range(nf)]})
+    return {"kind": "schema_rt", "op": "schema_rt", "schema": tables, "region": region,
+            "via": rng.choice(["write_schema", "initialize_database"])}
+
+
+def schema_rt_fixed():
+    """the F27 regression and the layout corners, deterministically"""
+    F = lambda n, dt, fl=None, c=None: {k: x for k, x in (("name", cps(n)), ("dt", dt), ("flags", fl), ("comment", c))
+                                       if x is not None}
+    long = "f" * 31                       # '  ' + name + ' :string' = 41 characters: no padding before '#'
+    mid = "g" * 30                        # exactly 40: no padding either
+    short = "h" * 29                      # 39: one space of padding
+    tabs = [
+        [{"name": cps("a"), "fields": [F("x", ":integer")]}],
+        [{"name": cps("item"), "fields": [F("i-id", ":integer", [":key"])]}, {"name": cps("q"), "fields": [F("y", ":string")]}],
+        [{"name": cps("q"), "fields": [F("y", ":string", None, "c")]}, {"name": cps("_"), "fields": [F("z", ":date")]},
+         {"name": cps("0"), "fields": [F("-", ":x")]}],
+        [{"name": cps("t"), "fields": [F(long, ":string", None, "tight"), F(mid, ":string", None, "forty"),
+                                      F(short, ":string", None, "thirty-nine"), F("k", ":integer", [":key", ":a:b"], "# x")]}],
+        [{"name": cps("item"), "fields": [F("i-id", ":integer", [":key"], "item id"), F("i-input", ":string")]},
+         {"name": cps("item-set"), "fields": [F("i-id", ":integer", [":key", ":partial"]), F("s-id", ":integer", [":key"])]}],
+    ]
+    for t in tabs:
+        for via in ("write_schema", "initialize_database"):
+            yield {"kind": "schema_rt", "op": "schema_rt", "schema": t, "region": True, "via": via}
+
+
+LINE_ALPHA = ["a", "b", "x1", ":", "#", " ", "  ", "\t", "-", "_", ":string", ":integer", ":key", "item", "é"]
+
+
+def gen_schema_parse(rng):
+    lines = []
+    for _ in range(rng.choice([1, 2, 3, 4, 6, 9])):
+        r = rng.random()
+        if r < 0.25:
+            lines.append(gen_ident(rng) + ":" + rng.choice(["", "", " ", ":"]))
+        elif r < 0.55:
+            parts = [gen_ident(rng), rng.choice(DTYPES)] + [rng.choice(SFLAGS) for _ in range(rng.randrange(0, 3))]
+            line = rng.choice(["  ", "", "\t", " "]) + rng.choice([" ", " ", "  ", "\t"]).join(parts)
+            if rng.random() < 0.4:
+                line += rng.choice(["", " ", "  ", "   "]) + "#" + rng.choice(["", " ", "  "]) + rng.choice(COMMENT_OK + COMMENT_ODD)
+            lines.append(line)
+        elif r < 0.65:
+            lines.append(rng.choice(["", " ", "\t "]))
+        else:
+            lines.append("".join(rng.choice(LINE_ALPHA) for _ in range(rng.randrange(1, 7))))
+    return {"kind": "schema_parse", "op": "schema_parse", "lines": [cps(x) for x in lines]}
+
+
+def schema_parse_fixed():
+    for lines in (["a:"], ["a:", "  x :integer"], ["item:", "x"], ["item:", "x #c"], ["item:", "x  #c"], ["item:", "x  # c"],
+                  ["item:", "x   "], ["x :integer"], ["item:", "item:"], ["item:", "", "item:"], ["a:b:", " x y"],
+                  ["item:", "x y#"], ["item:", "x y #  "], ["item:", "x y # z:"], ["item:", "x\ty\tz"], ["1:", "-:"],
+                  ["item:", "x :string # a # b"], [":"], ["::"], ["a::"], ["é:"], ["item:", "x :string", "", "parse:", "y :integer"]):
+        yield {"kind": "schema_parse", "op": "schema_parse", "lines": [cps(x) for x in lines]}
+
+
+# ---------------------------------------------------------------- carriage returns and friends
+
+CR_VALUES = ["\r", "\r\n", "\n", "\n\r", "a\rb", "a\r\nb", "\\n", "\\\n", "\\r", "\x00", "a\x00b", "\x0b", "\x0c", "\x1c",
+             "\x1d", "\x1e", "\x85", "\u2028", "\u2029", "\r\r", "x\r", "\rx", "@\r@", "\\s\r"]
+
+
+def cr_hists():
+    """every special value through plain and gz, overwrite and overwrite+append, as the only, first and last column"""
+    fields = [{"name": cps("i-id"), "dt": ":integer"}, {"name": cps("i-input"), "dt": ":string"},
+              {"name": cps("i-comment"), "dt": ":string"}]
+    for i, val in enumerate(CR_VALUES):
+        rec1 = [{"int": str(i)}, {"str": cps(val)}, {"str": cps("t")}]
+        rec2 = [{"int": str(i + 100)}, {"str": cps("h")}, {"str": cps(val)}]
+        for gz in (False, True):
+            ops = [{"k": "write", "recs": [rec1, rec2], "append": False, "gzip": gz, "schemafile": False},
+                   {"k": "write", "recs": [rec2, rec1], "append": True, "gzip": False, "schemafile": False},
+                   {"k": "write", "recs": [rec2], "append": False, "gzip": not gz, "schemafile": True},
+                   {"k": "write", "recs": [rec1], "append": True, "gzip": False, "schemafile": False}]
+            start = {"tx": None, "gz": None}
+            start["gz" if gz else "tx"] = {"recs": [[cps("7"), cps(val), cps(val + val)]], "mtime": 5}
+            yield {"kind": "hist", "op": "hist", "rel": "item", "fields": fields, "start": start, "ops": ops,
+                   "sel": [cps("i-comment"), cps("i-input")], "stream": "cr"}
+
+
+def gen_hist_cr(rng):
+    nf = rng.choice([1, 2, 3])
+    fields = [{"name": cps("c%d" % i), "dt": ":string"} for i in range(nf)]
+    if rng.random() < 0.5:
+        fields.insert(rng.randrange(nf + 1), {"name": cps("i-id"), "dt": ":integer"})
+
+    def sval():
+        return "".join(rng.choice(CR_VALUES + ["a", "@", "\\"]) for _ in range(rng.choice([1, 1, 2, 3])))
+
+    def rec():
+        return [({"int": str(v.gen_int(rng))} if f["dt"] == ":integer" else {"str": cps(sval())}) for f in fields]
+
+    def rawrec():
+        return [cps(str(v.gen_int(rng))) if f["dt"] == ":integer" else cps(sval()) for f in fields]
+    ops = []
+    for _ in range(rng.choice([1, 2, 3, 4, 6])):
+        if rng.random() < 0.85:
+            ops.append({"k": "write", "recs": [rec() for _ in range(rng.choice([0, 1, 2, 3]))],
+                        "append": rng.random() < 0.45, "gzip": rng.random() < 0.45, "schemafile": rng.random() < 0.2})
+        else:
+            ops.append({"k": "plant", "gz": rng.random() < 0.5, "recs": [rawrec() for _ in range(rng.choice([1, 2]))],
+                        "when": rng.choice(["old", "new", "same"])})
+    st = rng.choice(["absent", "tx", "gz", "both_gz", "both_tx"])
+    start = {"tx": None, "gz": None}
+    if st in ("tx", "both_gz", "both_tx"):
+        start["tx"] = {"recs": [rawrec()], "mtime": 9 if st == "both_tx" else 4}
+    if st in ("gz", "both_gz", "both_tx"):
+        start["gz"] = {"recs": [rawrec(), rawrec()], "mtime": 9 if st == "both_gz" else 4 if st == "both_tx" else 5}
+    names = [f["name"] for f in fields]
+    return {"kind": "hist", "op": "hist", "rel": "item", "fields": fields, "start": start, "ops": ops,
+            "sel": [rng.choice(names) for _ in range(rng.randrange(1, 3))], "stream": "cr"}
+
+
 # ---------------------------------------------------------------- the check
 
 class C09(Check):
     pid = "C09"
-    quick_cases = 700
+    quick_cases = 1000
     thorough_cases = 6000
     rule = ("hist: one relation of 1-5 typed columns, start in {absent, plain, gz, both with plain newer / gz "
             "newer / equal mtime}, 1-12 steps of tsdb.write (append x gzip, 0-3 records of ints incl. huge, "
@@ -468,17 +656,31 @@ class C09(Check):
     # ---- cases
     def cases(self, rng, tier, n):
         yield from exhaustive_hists(3 if tier == "quick" else 4)
-        n_db = n * 3 // 10
+        yield from cr_hists()
+        yield from schema_rt_fixed()
+        yield from schema_parse_fixed()
         for i in range(n):
-            if i % 10 < 3 and n_db > 0:
+            k = i % 20
+            if k < 6:
                 yield gen_db(rng)
-            else:
+            elif k < 14:
                 yield gen_hist(rng)
+            elif k < 16:
+                yield gen_hist_cr(rng)
+            elif k < 18:
+                yield gen_schema_rt(rng, region=(k == 16 or rng.random() < 0.5))
+            else:
+                yield gen_schema_parse(rng)
 
     def search_cases(self, rng, tier, n, seeds):
         kinds = {c.get("kind") for c in seeds} or {"hist", "db"}
         if "hist" in kinds:
             yield from exhaustive_hists(3)
+            yield from cr_hists()
+        if kinds & {"schema_rt", "schema_parse", "db"}:
+            yield from schema_rt_fixed()
+            for _ in range(n // 4):
+                yield gen_schema_rt(rng, region=True)
         for _ in range(n):
             if "db" in kinds and ("hist" not in kinds or rng.random() < 0.5):
                 yield gen_db(rng)
@@ -491,9 +693,24 @@ class C09(Check):
         try:
             if case["kind"] == "hist":
                 return self._impl_hist(case, d)
+            if case["kind"] == "schema_rt":
+                return self._impl_schema_rt(case, d)
+            if case["kind"] == "schema_parse":
+                return guarded_schema(lambda: tsdb._parse_schema("\n".join(uncps(l) for l in case["lines"])))
             return self._impl_db(case, d)
         finally:
             shutil.rmtree(d, ignore_errors=True)
+
+    def _impl_schema_rt(self, case, d):
+        schema = mk_schema(case["schema"])
+        if case.get("via") == "write_schema":
+            tsdb.write_schema(d, schema)
+        else:
+            tsdb.initialize_database(d, schema)
+        with open(os.path.join(d, "relations"), encoding="utf-8", newline="") as f:
+            text = f.read()
+        return {"lines": [cps(x) for x in text.splitlines()],
+                "parsed": guarded_schema(lambda: tsdb.Database(d).schema)}
 
     def _impl_hist(self, case, d):
         name = case["rel"]
@@ -576,9 +793,7 @@ class C09(Check):
         back = guarded(lambda: tsdb.read_schema(dst))
         if "ok" in back:
             sch = back["ok"]
-            out["schema"] = {"ok": [{"name": cps(n), "fields": [[cps(f.name), f.datatype] for f in sch[n]]}
-                                    for n in sch]}
-            out["flags"] = {n: [list(f.flags) for f in sch[n]] for n in sch}
+            out["schema"] = {"ok": j_schema(sch)}
         else:
             sch = None
             out["schema"] = back
@@ -596,8 +811,11 @@ class C09(Check):
         if case["kind"] == "hist":
             return {"op": "hist", "fields": [{"name": f["name"], "dt": f["dt"]} for f in case["fields"]],
                     "start": case["start"], "ops": case["ops"]}
-        sj = lambda s: [{"name": t["name"], "fields": [{"name": f["name"], "dt": f["dt"]} for f in t["fields"]]}
-                        for t in s]
+        if case["kind"] == "schema_rt":
+            return {"op": "schema_rt", "schema": model_schema(case["schema"])}
+        if case["kind"] == "schema_parse":
+            return {"op": "schema_parse", "lines": case["lines"]}
+        sj = model_schema
         return {"op": "db", "src_schema": sj(case["src_schema"]), "src_files": case["src_files"],
                 "dst_files": case["dst_files"] if case["dst"] != "inplace" else None,
                 "names": case["names"], "schema": sj(case["schema"]) if case["schema"] is not None else None,
@@ -619,12 +837,24 @@ class C09(Check):
     def oracle(self, case, res):
         if case["kind"] == "hist":
             return oracle_hist(case, res)
+        if case["kind"] == "schema_rt":
+            if case.get("region") and res["parsed"] != {"ok": want_schema_of(case["schema"])}:
+                return [{"clause": "a database initialised with a schema cannot be opened with the same schema",
+                         "detail": {"lines": [uncps(x) for x in res["lines"]], "got": res["parsed"]}}]
+            return []
+        if case["kind"] == "schema_parse":
+            return []
         return oracle_db(case, res)
 
     # ---- bookkeeping
     def nontrivial_key(self, case, res):
         if case["kind"] == "hist":
             if not any(o["res"] == "ok" for o in res):
+                return None
+        elif case["kind"] == "schema_rt":
+            pass
+        elif case["kind"] == "schema_parse":
+            if not any(case["lines"]):
                 return None
         elif res["res"] != "ok" or not any(r.get("tx") or r.get("gz") for r in res["rels"]):
             return None
@@ -634,7 +864,21 @@ class C09(Check):
         def inc(k, n=1):
             c[k] = c.get(k, 0) + n
         inc("kind:" + case["kind"])
-        if case["kind"] == "hist":
+        if case["kind"] == "schema_rt":
+            inc("schema_rt.region:%s" % bool(case.get("region")))
+            inc("schema_rt.parsed:" + ("ok" if "ok" in res["parsed"] else res["parsed"]["err"]))
+            inc("schema_rt.tables:%d" % min(len(case["schema"]), 4))
+            if any(len(uncps(t["name"])) == 1 for t in case["schema"]):
+                inc("schema_rt.one_char_relation")
+            if any(f.get("comment") for t in case["schema"] for f in t["fields"]):
+                inc("schema_rt.with_comment")
+            if any(len(uncps(l)) > 42 and "#" in uncps(l) for l in res["lines"]):
+                inc("schema_rt.comment_without_padding")
+        elif case["kind"] == "schema_parse":
+            inc("schema_parse:" + ("ok" if "ok" in res else res["err"]))
+        elif case["kind"] == "hist":
+            if case.get("stream"):
+                inc("hist.stream:" + case["stream"])
             inc("hist.len:%d" % min(len(case["ops"]), 12))
             st = case["start"]
             both = st["tx"] is not None and st["gz"] is not None
@@ -873,13 +1117,10 @@ def oracle_db(case, res):
         fail("write_database raised on a valid request", res["res"])
         return fails
     # schema text round trip
-    want_schema = [{"name": t["name"], "fields": [[f["name"], f["dt"]] for f in t["fields"]]} for t in Tl]
+    want_schema = want_schema_of(Tl)
     if res["schema"] != {"ok": want_schema}:
         fail("the schema read back differs from the schema written", {"want": want_schema, "got": res["schema"]})
         return fails
-    want_flags = {uncps(t["name"]): [list(f.get("flags") or []) for f in t["fields"]] for t in Tl}
-    if res.get("flags") != want_flags:
-        fail("field flags read back differ from the schema written", {"want": want_flags, "got": res.get("flags")})
     src_files = {uncps(f["name"]): f for f in case["src_files"]}
     obs = {uncps(w): r for w, r in zip(case["watch"], res["rels"])}
     listing_ok = {"relations"}
